@@ -730,12 +730,30 @@ fn oracle_symv(r: &Req, out: &str) -> Result<(), String> {
     if !welldim(&a_) || !rows_ok(&a_) || a_.m != a_.n || x.len() != a_.n || y.len() != a_.n || !a_.is_triu() {
         return Ok(());
     }
+    let o = resp(out).ok_or("no vector returned")?;
+    let yo = o.fs("y");
+    let mut y = y;
+    if b == 0.0 {
+        // b = 0 (either sign): y is not read (since /repo 1706c1f, as in gemv) — the result must not
+        // depend on y's contents, whatever they are (NaN/Inf left by an earlier solve included)
+        if a_.rowval.iter().all(|&r| r < a_.n) {
+            for fill in [0.0, 1.0, f64::NAN] {
+                let mut y2 = vec![fill; y.len()];
+                hook::symv(&a_, &mut y2, &x, a, b);
+                if !same_bits(&yo, &y2) {
+                    return Err(format!("b = 0 but the result depends on y: got {:?}, with y = [{}; n] got {:?}", yo, fill, y2));
+                }
+            }
+        }
+        let moderate = |v: &[f64]| v.iter().all(|t| t.is_finite() && t.abs() < 1e100);
+        if moderate(&x) && moderate(&a_.nzval) && a.is_finite() && a.abs() < 1e100 && !all_finite(&yo) {
+            return Err(format!("b = 0, finite A, x, a, but the result is not finite: {:?}", yo));
+        }
+        y = vec![0.0; y.len()];
+    }
     if !all_finite(&y) {
         return Ok(());
     }
-    // symv always scales (no b = 0 fast path): use b·y literally
-    let o = resp(out).ok_or("no vector returned")?;
-    let yo = o.fs("y");
     let d = sym_dense(&a_);
     if !all_finite(&x) || !a.is_finite() || !b.is_finite() || !d.iter().all(|r| all_finite(r)) {
         return Ok(());
@@ -1381,7 +1399,7 @@ fn channels() -> Vec<Channel> {
         ch!("csc.index_to_coord", e, run_index_to_coord, Some(oracle_index_to_coord), "CscMatrix::index_to_coord", "Csc.indexToCoord / C16.indexToCoord_spec, indexToCoord_general_spec, indexToCoord_below_colptr0"),
         ch!("csc.gemv_n", e, run_gemv_n, Some(oracle_gemv_n), "_csc_axpby_N (MatrixVectorMultiply::gemv)", "Csc.gemvN / C16.gemvN_spec"),
         ch!("csc.gemv_t", e, run_gemv_t, Some(oracle_gemv_t), "_csc_axpby_T (Adjoint gemv)", "Csc.gemvT / C16.gemvT_spec"),
-        ch!("csc.symv", e, run_symv, Some(oracle_symv), "_csc_symv_unsafe (SymMatrixVectorMultiply::symv)", "Csc.symv / C16.symv_spec"),
+        ch!("csc.symv", e, run_symv, Some(oracle_symv), "_csc_symv_unsafe (SymMatrixVectorMultiply::symv)", "Csc.symv / C16.symv_spec, symv_beta_zero_ignores_y"),
         ch!("csc.quad_form", e, run_quad_form, Some(oracle_quad_form), "_csc_quad_form", "Csc.quadForm / C16.quadForm_spec"),
         ch!("csc.col_sums", e, run_col_sums, Some(oracle_col_sums), "MatrixMath::col_sums", "Csc.colSums / C16.colSums_spec"),
         ch!("csc.row_sums", e, run_row_sums, Some(oracle_row_sums), "MatrixMath::row_sums", "Csc.rowSums / C16.rowSums_spec, rowSums_general_spec"),
@@ -1586,6 +1604,14 @@ fn ops_canonical(s: &mut Session, a: &CscMatrix<f64>, exhaustive: bool, k: VK) {
         let t = a.to_triu();
         let (ca, cb) = (coef(s, k), coef(s, k));
         s.submit(Line::new("csc.symv").csc("", &t).fs("y", &y).fs("x", &x).f("a", ca).f("b", cb).done());
+        // b = ±0 with NaN / ±inf / huge values in y: y must not be read
+        if a.n > 0 {
+            let yp: Vec<f64> = (0..a.n).map(|_| [f64::NAN, f64::INFINITY, f64::NEG_INFINITY, 1e308, 1.0, 0.0][s.rng.below(6)]).collect();
+            let bz = if s.rng.bool(0.5) { 0.0 } else { -0.0 };
+            let ca = coef(s, k);
+            s.count("symv:b=0,poisoned-y");
+            s.submit(Line::new("csc.symv").csc("", &t).fs("y", &yp).fs("x", &x).f("a", ca).f("b", bz).done());
+        }
         s.submit(Line::new("csc.quad_form").csc("", &t).fs("y", &y).fs("x", &x).done());
     }
 }
@@ -1609,6 +1635,51 @@ fn noncanonical(s: &mut Session, m: usize, n: usize, vals: Vals) -> CscMatrix<f6
         colptr.push(rowval.len());
     }
     CscMatrix { m, n, colptr, rowval, nzval }
+}
+
+/// tall matrices whose columns hold many unsorted (and repeated) entries: sorting / merging code
+/// that switches algorithm at a column length (insertion sort below a threshold, shared scratch
+/// buffers above it) is only exercised beyond toy sizes
+fn tall_unsorted(s: &mut Session) {
+    let m = 18 + s.rng.below(47);
+    let n = 1 + s.rng.below(4);
+    let mut colptr = vec![0usize];
+    let (mut rowval, mut nzval) = (vec![], vec![]);
+    for _ in 0..n {
+        let k = match s.rng.below(8) {
+            0 => 0,
+            1 => 1,
+            2 => 15 + s.rng.below(4),
+            3 => 31 + s.rng.below(3),
+            4 => m.min(40),
+            _ => s.rng.below(m + 1),
+        };
+        let dup = s.rng.bool(0.3);
+        let mut rows: Vec<usize> = if dup {
+            (0..k).map(|_| s.rng.below(m)).collect()
+        } else {
+            // distinct rows in random order
+            let mut all: Vec<usize> = (0..m).collect();
+            for i in (1..all.len()).rev() {
+                let j = s.rng.below(i + 1);
+                all.swap(i, j);
+            }
+            all.truncate(k.min(m));
+            all
+        };
+        if s.rng.bool(0.2) {
+            rows.sort_unstable();
+        }
+        for r in rows {
+            rowval.push(r);
+            nzval.push(s.rng.smallint(4) + if s.rng.bool(0.2) { 0.5 } else { 0.0 });
+        }
+        colptr.push(rowval.len());
+    }
+    let a = CscMatrix { m, n, colptr, rowval, nzval };
+    s.count("tall-unsorted");
+    s.submit(Line::new("csc.canonicalize").csc("", &a).done());
+    s.submit(Line::new("csc.check_format").csc("", &a).done());
 }
 
 fn malformed(s: &mut Session) {
@@ -2025,6 +2096,9 @@ invperm / sortperm / findmax / position_all (crate-private; invperm in C12, the 
     }
     for _ in 0..s.budget(300, 5000) {
         malformed(s);
+    }
+    for _ in 0..s.budget(120, 2500) {
+        tall_unsorted(s);
     }
     for _ in 0..s.budget(300, 10000) {
         random_triplets(s);
